@@ -218,11 +218,23 @@ def _is_function_of_base_or_ancestor(
                 if isinstance(value, (staticmethod, classmethod)):
                     value = value.__func__
 
-                if not inspect.isfunction(value):
-                    continue
+                # An accessor of a property of a base can be taken over as a plain function as well
+                # (``some_method = Base.some_property.fget``).
+                candidates = (
+                    (value.fget, value.fset, value.fdel)
+                    if isinstance(value, property)
+                    else (value,)
+                )
 
-                if icontract._checkers.find_checker(func=value) is contract_checker:
-                    return True
+                for candidate in candidates:
+                    if not inspect.isfunction(candidate):
+                        continue
+
+                    if (
+                        icontract._checkers.find_checker(func=candidate)
+                        is contract_checker
+                    ):
+                        return True
 
     return False
 
@@ -365,19 +377,32 @@ def _is_accessor_of_base_or_ancestor(
             if isinstance(value, property) and value is not a_property
         )
 
-        for a_property in properties:
-            for accessor in (a_property.fget, a_property.fset, a_property.fdel):
-                if accessor is None:
-                    continue
+        accessors = [
+            accessor
+            for a_property in properties
+            for accessor in (a_property.fget, a_property.fset, a_property.fdel)
+        ]  # type: List[Any]
 
-                if accessor is func:
-                    return True
+        # A method of a base can be taken over as an accessor as well (``some_property = property(Base.some_method)``).
+        for value in vars(klass).values():
+            if isinstance(value, (staticmethod, classmethod)):
+                value = value.__func__
 
-                if (
-                    checker is not None
-                    and icontract._checkers.find_checker(func=accessor) is checker
-                ):
-                    return True
+            if inspect.isfunction(value):
+                accessors.append(value)
+
+        for accessor in accessors:
+            if accessor is None:
+                continue
+
+            if accessor is func:
+                return True
+
+            if (
+                checker is not None
+                and icontract._checkers.find_checker(func=accessor) is checker
+            ):
+                return True
 
     return False
 
